@@ -38,6 +38,15 @@ def cell_msgs(w, rng, p, q):
         (w.router, "router.execute_swap_operation", {"execute_swap_operation": {
             "operation": {"halo_swap": {"offer_asset_info": ainfo(p.assets[0]), "ask_asset_info": ainfo(p.assets[1])}},
             "to": rng.choice(["attacker", None])}}, "router"),
+        (w.router, "router.execute_swap_operation", {"execute_swap_operation": {
+            "operation": {"halo_swap": {"offer_asset_info": ainfo(p.assets[1]), "ask_asset_info": ainfo(p.assets[0])}},
+            "to": rng.choice(["attacker", None])}}, "router"),
+        (w.router, "router.execute_swap_operation", {"execute_swap_operation": {
+            "operation": {"halo_swap": {"offer_asset_info": ainfo(q.assets[0]), "ask_asset_info": ainfo(q.assets[1])}},
+            "to": "attacker"}}, "router"),
+        (w.router, "router.execute_swap_operation", {"execute_swap_operation": {
+            "operation": {"halo_swap": {"offer_asset_info": ainfo(q.assets[1]), "ask_asset_info": ainfo(q.assets[0])}},
+            "to": None}}, "router"),
         (w.router, "router.assert_minimum_receive", {"assert_minimum_receive": {
             "asset_info": ainfo(p.assets[0]), "prev_balance": "0", "minimum_receive": rng.choice(["0", "0", "1", "1000"]),
             "receiver": "attacker"}}, "router"),
@@ -249,6 +258,12 @@ def run_world(acc, srv, key):
         p, q_ = rng.sample(w.pairs, 2)
         # park stray LP (and some of each asset) on the pairs themselves: hooks that would otherwise die at the
         # final burn/transfer can then take effect if an origin check is missing
+        # ... and stray balances of the pairs' assets on the router (an unguarded single-hop message could spend them)
+        for a_ in sorted(set(p.assets + q_.assets)):
+            amt_ = rng.choice([1000, 10 ** 6, 1 << w.scale_bits])
+            if w.ledger.get("attacker", a_[1]) >= amt_:
+                st = w.step(w.op_donate("attacker", w.router, a_, amt_))
+                acc.count("assets_parked_on_router" if st.ok else "asset_park_failed")
         for pr in (p, q_):
             holders = [x for x in ACTORS if w.ledger.get(x, pr.lp) >= 4]
             if holders:
@@ -270,9 +285,13 @@ def run_world(acc, srv, key):
         if phase == "before_transfer":
             # ownership transfer by the owner: roles swap
             new_owner = rng.choice(["trader2", "lp2"])
+            # every shape of the message: code ids absent, equal to the stored ones, or changed
+            tc = rng.choice([None, w.codes["cw20"], w.codes["cw20"]])
+            pc = rng.choice([None, w.codes["pair"], w.codes["pair2"]])
             st = w.step({"kind": "matrix", "actor": owner, "contract": w.factory,
-                         "msg": {"update_config": {"owner": new_owner, "token_code_id": None, "pair_code_id": None}},
+                         "msg": {"update_config": {"owner": new_owner, "token_code_id": tc, "pair_code_id": pc}},
                          "funds": [], "sem": {"cell": "ownership_transfer"}})
+            acc.cls("ownership_transfer", "tc=%s" % ("none" if tc is None else "same"), "pc=%s" % ("none" if pc is None else ("same" if pc == w.codes["pair"] else "new")), st.res["r"])
             if not st.ok:
                 acc.count("positive_control_failed:ownership_transfer")
                 return
